@@ -58,7 +58,7 @@ func unsafeRandString(n int) string {
 // parserRequestURL sets options for the hostclient and normalizes the URL.
 // It merges the baseURL with the request URI if needed and applies query and path parameters.
 func parserRequestURL(c *Client, req *Request) error {
-	splitURL := strings.Split(req.url, "?")
+	splitURL := strings.SplitN(req.url, "?", 2)
 	// Ensure splitURL has at least two elements.
 	splitURL = append(splitURL, "")
 
@@ -101,7 +101,7 @@ func parserRequestURL(c *Client, req *Request) error {
 	req.RawRequest.SetRequestURI(uri)
 
 	// Merge query parameters.
-	hashSplit := strings.Split(splitURL[1], "#")
+	hashSplit := strings.SplitN(splitURL[1], "#", 2)
 	hashSplit = append(hashSplit, "")
 	args := fasthttp.AcquireArgs()
 	defer fasthttp.ReleaseArgs(args)
